@@ -111,7 +111,6 @@ func (e *Env) ptrTypes(full bool) []PtrType {
 		{"Data", T(Data), &Default{Explicit: true, Data: []byte{0xd0, 0x00, 0xd2}}},
 		{"Struct", RefTo(e.T), dl(Default{StructWords: []uint64{0x1122334455667788, 0x5A5A0000FFFF}, StructText: "dt"})},
 		{"Any", T(AnyPointer), nil},
-		{"LVoid", ListOf(T(Void)), dl(Default{Elems: []uint64{0, 0, 0}})},
 		{"LBool", ListOf(T(Bool)), dl(Default{Elems: []uint64{1, 0, 1, 1, 0, 0, 0, 0, 1}})},
 		{"LU8", ListOf(T(Uint8)), dl(Default{Elems: []uint64{1, 0xff, 0x5a}})},
 		{"LI16", ListOf(T(Int16)), dl(Default{Elems: []uint64{0x8000, 1}})},
@@ -170,6 +169,7 @@ func Build(tier string) *Universe {
 	sizes := buildSizes(sc)
 	other := buildOther(sc)
 	misc := buildMisc(sc, other)
+	lvoid := buildLVoid(sc)
 	add("plain", plain)
 	add("ptr", ptr)
 	add("union", uni)
@@ -180,7 +180,8 @@ func Build(tier string) *Universe {
 	// one requested file whose import is not requested (its nodes are in
 	// the request nevertheless, as the compiler does)
 	add("misc", misc)
-	u.Files = []*File{plain, ptr, uni, uptr, grp, sizes, other, misc}
+	add("lvoid", lvoid)
+	u.Files = []*File{plain, ptr, uni, uptr, grp, sizes, other, misc, lvoid}
 	for _, f := range u.Files {
 		if err := f.Validate(); err != nil {
 			panic(err)
@@ -382,7 +383,7 @@ func buildGroup(sc Scope) *File {
 			g.Add("v", T(Void), 0, Default{})
 			// group inside group
 			gg := g.AddGroup("inner", false)
-			for *(&cur)%64 != 0 {
+			for cur%64 != 0 {
 				cur++
 			}
 			gg.Add("x", T(Uint64), uint32(cur/64), DataDefault(Uint64, d))
@@ -551,7 +552,7 @@ func buildMisc(sc Scope, other *File) *File {
 	o.Add("col", RefTo(ie), 0, Default{})
 	o.Finish(0, 0)
 
-	r := f.Struct("renamedStruct").SetRename("Shiny")
+	r := f.Struct("OldStruct").SetRename("Shiny")
 	r.Doc = "Shiny has a doc comment."
 	rf := r.Add("oldName", T(Int16), 1, DataDefault(Int16, DSign))
 	rf.Rename = "newName"
@@ -566,7 +567,7 @@ func buildMisc(sc Scope, other *File) *File {
 	m1.Rename = "port"
 	ru.AddMember("right", T(Text), 0, Default{})
 	r.Finish(0, 0)
-	re := f.Enum("plainEnum", "alpha", "beta")
+	re := f.Enum("PlainEnum", "alpha", "beta")
 	re.SetRename("FancyEnum")
 	re.Doc = "FancyEnum is documented."
 	re.Enumerants[0].Rename = "first"
@@ -604,5 +605,33 @@ func buildMisc(sc Scope, other *File) *File {
 	f.Const("cExtEnum", RefTo(extEnum), Default{Bits: 3})
 	f.Const("cVoid", T(Void), Default{})
 	f.Annotation("myAnn", T(Text))
+	return f
+}
+
+// ---- List(Void) fields, kept in a package of their own: the generator is
+// known to reject them ("no new function for VoidList"), which must not hide
+// the rest of the pointer families.
+
+func buildLVoid(sc Scope) *File {
+	f := NewFile("c15lvoid")
+	lv := ListOf(T(Void))
+	def := Default{Explicit: true, HasPtr: true, Elems: []uint64{0, 0, 0}}
+	for _, withDef := range []bool{false, true} {
+		tag, d := "A", Default{}
+		if withDef {
+			tag, d = "D", def
+		}
+		s := f.Struct("PLVoid" + tag)
+		for _, off := range Offsets {
+			s.Add(fmt.Sprintf("p%d", off), lv, off, d)
+		}
+		s.Finish(0, 0)
+		u := f.Struct("ULVoid" + tag)
+		u.DiscOffset = 1
+		for _, off := range Offsets {
+			u.AddMember(fmt.Sprintf("m%d", off), lv, off, d)
+		}
+		u.Finish(0, 0)
+	}
 	return f
 }
